@@ -217,6 +217,28 @@ def run_case(case, ctx):
             got = np.asarray(got, dtype=float)
             ok = got.shape == vec.shape and bool(np.all(np.abs(got - vec) <= allow(vec)))
             ctx.check("containers_agree", ok, observed=got, expected=vec, tags=tag + narrow, detail={"branch": branch})
+        # ---- the inverse through the same container: judged like load(stress(L)) == L above
+        if bk is not None:
+            contb, modeb = _container(case["container"], vec)
+            warned = 0
+            if modeb == "scalar":
+                gotb = []
+                for x in contb:
+                    r, err = _call(ctx, back, x, tol, f"{kind}.{branch}.load({case['container']})", tag)
+                    warned += _warned["n"]
+                    if r is None:
+                        gotb = None
+                        break
+                    gotb.append(float(np.asarray(r).reshape(-1)[0]))
+            else:
+                r, err = _call(ctx, back, contb, tol, f"{kind}.{branch}.load({case['container']})", tag)
+                warned += _warned["n"]
+                gotb = None if r is None else np.asarray(r, dtype=float).reshape(-1)
+            if gotb is not None:
+                gotb = np.asarray(gotb, dtype=float)
+                wtag = ["c06_inverse_returned_unconverged_with_warning"] if warned else []
+                ctx.check("load(stress(L))==L", gotb.shape == L.shape and bool(np.all(np.abs(gotb - L) <= lim)), observed=gotb, expected=L,
+                          tags=narrow + wtag + tag, detail={"branch": branch, "container": case["container"], "convergence_warnings": warned})
 
 
 def _dL_dsigma(kind, branch, sig, L, m, kp):
